@@ -212,6 +212,9 @@ pub enum Op {
         bad_hex: Option<(usize, u8)>,
     },
     Select { a: usize, b: usize, choice: bool, form: u8 },
+    /// Selection between two valid wrappers of a width the pool does not carry (9, 10, 12 or 15 limbs: more than eight
+    /// and not a multiple of eight), built on the spot through `new`; nothing enters the pool
+    SelectWide { limbs: usize, odd: bool, a: Vec<u64>, b: Vec<u64>, choice: bool, form: u8 },
     /// `Clone::clone_from` of pool member `src` into a clone of pool member `dst` (same wrapper type; for the boxed
     /// carriers the two may have different precisions — an overwritten buffer is state carried from one value to the next)
     CloneFrom {
@@ -739,6 +742,70 @@ fn exec(plan: &Plan, out: &mut RunOut) {
                         );
                     }
                     pool.push(Member { w, born: ei, producer: "conditional_select".into() });
+                }
+            }
+            Op::SelectWide { limbs, odd, a, b, choice, form } => {
+                let ch = Choice::from(*choice as u8);
+                macro_rules! wide {
+                    ($n:expr) => {{
+                        let mk = |w: &[u64]| {
+                            let mut x = [0u64; $n];
+                            x.copy_from_slice(&w[..$n]);
+                            Uint::<$n>::from_words(x)
+                        };
+                        let (xa, xb) = (mk(a), mk(b));
+                        macro_rules! go {
+                            ($wrap:ident) => {{
+                                guard(move || {
+                                    let (Some(wa), Some(wb)) = (Option::<$wrap<Uint<$n>>>::from($wrap::new(xa)), Option::<$wrap<Uint<$n>>>::from($wrap::new(xb))) else { return None };
+                                    let r = match form % 3 {
+                                        0 => ConditionallySelectable::conditional_select(&wa, &wb, ch),
+                                        1 => {
+                                            let mut t = wa;
+                                            t.conditional_assign(&wb, ch);
+                                            t
+                                        }
+                                        _ => {
+                                            let (mut s, mut t) = (wa, wb);
+                                            ConditionallySelectable::conditional_swap(&mut s, &mut t, ch);
+                                            s
+                                        }
+                                    };
+                                    Some(r.as_ref().to_words().to_vec())
+                                })
+                            }};
+                        }
+                        if *odd { go!(Odd) } else { go!(NonZero) }
+                    }};
+                }
+                let g: Guarded<Option<Vec<u64>>> = match *limbs {
+                    9 => wide!(9),
+                    10 => wide!(10),
+                    12 => wide!(12),
+                    15 => wide!(15),
+                    _ => continue,
+                };
+                let ty = format!("{}<Uint<{}>>", if *odd { "Odd" } else { "NonZero" }, limbs);
+                match g {
+                    Guarded::Done(Some(got)) => {
+                        out.ev(&format!("select-wide/{}/{}", ty, form % 3));
+                        out.state(format!("select-wide|{}|form{}|choice{}", ty, form % 3, *choice as u8));
+                        out.count("probe:selection-at-widths-9-to-15-limbs");
+                        let want = if *choice { &b[..*limbs] } else { &a[..*limbs] };
+                        let bad = if *odd { !is_odd(&got) } else { is_zero(&got) };
+                        if bad || got != want {
+                            out.viol(
+                                "C12/invalid-wrapper",
+                                format!("conditional_select:{}", ty),
+                                format!("selection between {} and {} (choice={}, form {}) gave {}", hexw(&a[..*limbs]), hexw(&b[..*limbs]), choice, form % 3, hexw(&got)),
+                                None,
+                            );
+                        }
+                    }
+                    Guarded::Panic(p) => {
+                        out.viol("C11/unexpected-panic", format!("select-wide:{}", p.location), format!("selection between two valid {} panicked at {}: {}", ty, p.location, p.message), None);
+                    }
+                    _ => {}
                 }
             }
             Op::CloneFrom { dst, src, recent } => {
@@ -1442,6 +1509,11 @@ impl TypedScenario for Pool {
         for _ in 0..n_ops {
             let carrier = *r.pick(&CARRIERS);
             let wr = if r.chance(1, 2) { Wr::Nz } else { Wr::Odd };
+            if carrier == Carrier::Boxed && r.chance(1, 16) {
+                // a BoxedUint without any limb: its value is zero, so neither wrapper may accept it
+                ops.push(Op::Produce { carrier, wr, how: if wr == Wr::Odd && r.chance(1, 2) { How::To } else { How::New }, words: vec![], bytes: vec![], bad_hex: None });
+                continue;
+            }
             let n = if carrier == Carrier::Boxed { r.range(1, 4) as usize } else { limbs_of(carrier) };
             let mut pre: Vec<Op> = Vec::new();
             let op = match r.weighted(&weights) {
@@ -1467,6 +1539,41 @@ impl TypedScenario for Pool {
                     } else {
                         Op::CloneFrom { dst: r.below(64) as usize, src: r.below(64) as usize, recent: false }
                     }
+                }
+                1 if r.chance(1, 5) => {
+                    let limbs = *r.pick(&[9usize, 10, 12, 15]);
+                    let odd = r.chance(1, 2);
+                    let mut mk = |r: &mut Xoshiro| {
+                        // value classes that matter for a limb-wise selection: only high limbs set, only one limb set, random
+                        let mut w = match r.below(4) {
+                            0 => {
+                                let mut w = vec![0u64; limbs];
+                                w[limbs - 1] = r.next() | 1;
+                                w
+                            }
+                            1 => {
+                                let mut w = vec![0u64; limbs];
+                                let i = r.below(limbs as u64) as usize;
+                                w[i] = r.next() | 1;
+                                w
+                            }
+                            2 => {
+                                let mut w = vec![0u64; limbs];
+                                for x in w.iter_mut().skip(8) {
+                                    *x = r.next();
+                                }
+                                w[limbs - 1] |= 1;
+                                w
+                            }
+                            _ => (0..limbs).map(|_| r.next()).collect(),
+                        };
+                        if odd {
+                            w[0] |= 1;
+                        }
+                        w
+                    };
+                    let (a, b) = (mk(&mut r), mk(&mut r));
+                    Op::SelectWide { limbs, odd, a, b, choice: r.chance(1, 2), form: r.below(3) as u8 }
                 }
                 1 => Op::Select { a: r.below(64) as usize, b: r.below(64) as usize, choice: r.chance(1, 2), form: r.below(3) as u8 },
                 2 => Op::Convert {
